@@ -11,13 +11,14 @@ from vlib import ToolError, log
 
 MODEL_PLAN = {
     "C13": [("pair", 2, 840, 3000, 200, True, ["M_Subdivision", "M_StatusLineSorted", "M_NoPanic"])],
-    "C14": [("pairB", 2, 840, 3000, 200, True, ["M_Classification", "M_NoPanic"]), ("nest2", 2, 840, 12, 2, True, ["M_Classification"])],
+    "C14": [("pairB", 2, 840, 3000, 200, True, ["M_Classification", "M_NoPanic"]), ("nest2", 2, 840, 12, 2, True, ["M_Classification"]),
+            ("star3", 2, 840, 40, 3, True, ["M_Classification", "M_Subdivision"])],
     "C15": [("quad", 2, 840, 200, 20, True, ["M_StatusLineSorted", "M_NoPanic"])],
 }
 
 PROPS = ["C13", "C14", "C15", "C16"]
 
-EXACT = "cx,rect,cxmix,cxshift,cxabut,cxsub,frames"
+EXACT = "cx,rect,cxmix,cxshift,cxabut,cxsub,frames,pinch"
 ROUND = "aff-cx,aff-cxmix,aff-cxshift,lat,tfan,fan"
 
 CLAUSES = {"C13": ["fq", "sub"], "C14": ["cls"], "C15": ["evo", "sego"]}
@@ -76,6 +77,31 @@ def run_stage_prop(prop, tier, seed, t0):
     wd = os.path.join(vlib.OUT, prop)
     os.makedirs(wd, exist_ok=True)
     trace = record(prop, tier, seed, wd)
+    # Layer M first: the model's own inputs are appended to the recorded runs, so that the real
+    # code's stages on exactly these inputs are judged by the Layer P stage contracts as well
+    layer_m = []
+    rid0 = 1 + sum(1 for _ in open(trace))
+    for mi, (fam, n, l, sq, st, sc, invs) in enumerate(MODEL_PLAN.get(prop, [])):
+        stride = sq if tier == "quick" else st
+        mwd = os.path.join(vlib.OUT, prop, "model-%d-%s" % (mi, fam))
+        r = model_sweep.model_and_replay(prop, mwd, family=fam, n=n, l=l, stride=stride,
+                                         offset=(seed * 7 + mi) % stride, use_shortcuts=sc, invs=invs, timeout=10000)
+        inputs = r.pop("inputs")
+        r.update({"family": fam, "stride": stride, "invariants": invs})
+        if inputs:
+            src = os.path.join(mwd, "inputs.ndjson")
+            with open(src, "w") as f:
+                for (a, b, op) in inputs:
+                    f.write(json.dumps({"A": a, "B": b, "op": op}, separators=(",", ":")) + "\n")
+            tmp = os.path.join(mwd, "stages.tmp")
+            vlib.vh(["stage-inputs", "--file", src, "--rid0", rid0, "--matrix", 12, "--family", "layerM/" + fam], tmp)
+            with open(tmp) as f, open(trace, "a") as g:
+                for line in f:
+                    g.write(line)
+                    rid0 += 1
+            os.remove(tmp)
+            r["runs_to_contract"] = len(inputs)
+        layer_m.append({k: v for k, v in r.items() if k != "labels"})
     clauses = CLAUSES[prop]
     invs = [INVS[c] for c in clauses] + (["N3_NoStalePrevInResult"] if prop == "C14" else []) + (["N4_StackedVerticalsByPosition"] if prop == "C15" else [])
     cfg = "SPECIFICATION Spec\nCONSTANT Clauses = {%s}\nINVARIANTS\n%s\nCHECK_DEADLOCK TRUE\n" % (",".join('"%s"' % c for c in clauses), "\n".join("  " + i for i in invs))
@@ -105,13 +131,7 @@ def run_stage_prop(prop, tier, seed, t0):
     for c, n in kcount.items():
         k = known[KNOWN_CLASS[c]]
         log("KNOWN-FINDING: property=%s %s (%d of %d runs in this batch)" % (prop, k["what"], n, len(runs)))
-    layer_m = []
-    for mi, (fam, n, l, sq, st, sc, invs) in enumerate(MODEL_PLAN.get(prop, [])):
-        stride = sq if tier == "quick" else st
-        r = model_sweep.model_and_replay(prop, os.path.join(vlib.OUT, prop, "model-%d-%s" % (mi, fam)), family=fam, n=n, l=l, stride=stride,
-                                         offset=(seed * 7 + mi) % stride, use_shortcuts=sc, invs=invs, timeout=10000)
-        r.update({"family": fam, "stride": stride, "invariants": invs})
-        layer_m.append({k: v for k, v in r.items() if k != "labels"})
+    for r in layer_m:
         res["distinct"] += r["states"]
         res["generated"] += r["transitions"]
     nsub = sum(len([e for e in r["sub"]["ev"] if e[4] == 1]) for r in runs)
